@@ -641,6 +641,12 @@ def call(root, op, want_corr=True):
                 del w[op['key']]
             elif k == 'map_pop':
                 result = w.pop(op['key'])
+            elif k == 'map_setdefault':
+                result = w.setdefault(op['key'], vals[0])
+            elif k == 'map_popitem':
+                result = w.popitem()
+            elif k == 'map_update':
+                w.update({op['key']: vals[0], op['key2']: vals[1]})
             else:
                 raise RuntimeError('unknown op ' + k)
     except Exception as e:  # the refusal (or a crash) under observation
@@ -776,7 +782,7 @@ def _view_monitor(findings, op, parent, name, vref, result=None):
         v0 = _decode(op['values'][0], op.get('vtype'))
         match = [j for j in pos if id(ref[j]) in vref[4] and vref[4][id(ref[j])] == v0]
         targets = match[:1] if k == 'remove' else match
-    elif k in ('remove', 'discard', 'map_del', 'map_pop', 'map_set'):
+    elif k in ('remove', 'discard', 'map_del', 'map_pop', 'map_set', 'map_setdefault', 'map_popitem', 'map_update'):
         targets = list(pos)     # some element(s) of the view's type
     elif k in ('insert', 'append', 'extend', 'iadd', 'touch', 'vread'):
         targets = []
@@ -1025,9 +1031,12 @@ def gen_view_step(rng, root, path, raw):
         base = {'parent': path, 'attr': view, 'kind': 'val', 'raw': raw, 'view': True}
         if view in ('meta',) and rng.random() < 0.5:
             keys = list(w.keys())
-            k = rng.choice(['map_set', 'map_del', 'map_pop'])
+            k = rng.choice(['map_set', 'map_del', 'map_pop', 'map_setdefault', 'map_popitem', 'map_update'])
             key = rng.choice(keys + ['missing-key']) if keys else 'missing-key'
-            return {**base, 'plain': True, 'op': k, 'key': key, 'values': ['v'] if k == 'map_set' else []}
+            if k == 'map_update':
+                return {**base, 'plain': True, 'op': k, 'key': key, 'key2': rng.choice(keys + ['other-key', 'missing-key']) if keys else 'other-key',
+                        'values': ['v', 'w']}
+            return {**base, 'plain': True, 'op': k, 'key': key, 'values': ['v'] if k in ('map_set', 'map_setdefault') else []}
         if view in NODE_VIEWS or view == 'meta':
             T = w._raw_type
             k = rng.choice(['setitem', 'setslice', 'pop', 'delitem', 'delslice', 'delslice', 'insert', 'append', 'extend',
@@ -1380,11 +1389,15 @@ def gen_op(rng, root):
             n = len(w)
             if a == 'meta':
                 keys = list(w.keys())
-                k = rng.choice(['map_set', 'map_del', 'map_pop', 'pop', 'delitem'])
+                k = rng.choice(['map_set', 'map_del', 'map_pop', 'pop', 'delitem', 'map_setdefault', 'map_popitem', 'map_update'])
                 key = rng.choice(keys + ['missing-key', 'zz']) if keys else 'missing-key'
                 base = {'parent': path, 'attr': a, 'kind': 'val', 'raw': RAW_OF[a], 'plain': True}
-                if k == 'map_set':
+                if k in ('map_set', 'map_setdefault'):
                     return {**base, 'op': k, 'key': key, 'values': [rng.choice(['v', 'Assets:Cash'])]}
+                if k == 'map_update':
+                    return {**base, 'op': k, 'key': key, 'key2': rng.choice(keys + ['other-key']) if keys else 'other-key', 'values': ['v', 'w']}
+                if k == 'map_popitem':
+                    return {**base, 'op': k, 'values': []}
                 if k in ('map_del', 'map_pop'):
                     return {**base, 'op': k, 'key': key, 'values': []}
                 return {**base, 'op': k, 'i': rand_index(rng, n), 'values': []}
